@@ -284,7 +284,7 @@ func ReadLengthedBytesSlice(b []byte) (m [][]byte, left []byte, _ error) {
 	case err != nil:
 		return nil, nil, err
 	case i > maxLengthBytes:
-		return nil, nil, err
+		return nil, nil, errors.Errorf("huge size, %v", i)
 	default:
 		m = make([][]byte, i)
 
